@@ -18,6 +18,8 @@ import Pog.Lemmas.ConvRound
     no_mapping_falls_through          : `get_mapping()` None/empty, or property absent ⇒ metadata ignored          (full)
     firstmatch_lossless               : the decoded variant re-encodes to the payload                                 ✗
         — `Union[V1{a}, V2{a,b}]`: `{a,b}` ↦ `V1(a)`, `b` is dropped;  `Union[str, int]`: `5` ↦ `"5"`   (counterexamples)
+    union_result_is_one_members       : an ok result is None / ONE listed member's / the mapped class's / the dict itself (full)
+    union_of_classes_yields_listed_class : union of classes, dict payload ⇒ instance of a listed class, from its own hook   (full)
         — holds when every dataclass variant listed BEFORE the payload's own variant rejects it          (partial;
           `firstmatch_roundtrip_partial` composes it with C16 `decode_encode`)
 -/
@@ -95,6 +97,45 @@ example : structF Codecs.exec 4 decls (.union members (some disc))
 example : structF Codecs.exec 4 decls (.union members (some { disc with mapping := none }))
     (.obj [("kind".toList, .str "two".toList), ("a".toList, .int 1)])
       = .ok (.inst "V1".toList [("a".toList, .int 1)]) := by decide
+
+/-! ## every successful union decode is ONE member's decode of the whole payload -/
+
+/-- Whatever the members, their order and the discriminator metadata: when decoding a payload as a union succeeds, the
+    value is (a) `None`, for a `null` payload of a union that lists `NoneType`; (b) exactly what ONE listed member yields
+    for the whole payload; (c) exactly what the class the discriminator value maps to yields for the whole payload; or
+    (d) the payload itself, when `dict[str, Any]` is a member.  The union never assembles a value from several members,
+    never decodes a part of the payload, and never returns a class that neither is listed nor is mapped. -/
+theorem union_result_is_one_members (c : Codecs) (n : Nat) (decls : Decls) (args : List Ty) (disc : Option Disc)
+    (j : JsonV) (v : Val) (h : structF c (n + 1) decls (.union args disc) j = .ok v) :
+    (j = .null ∧ v = .none ∧ args.any isNoneTy = true)
+    ∨ (∃ t ∈ args, structF c n decls t j = .ok v)
+    ∨ (∃ d m s variant kvs, disc = some d ∧ j = .obj kvs ∧ d.mapping = some m ∧ aget kvs d.prop = some (.str s)
+          ∧ aget m s = some variant ∧ structF c n decls (.dc variant) j = .ok v)
+    ∨ (args.any isDictAny = true ∧ isObj j = true ∧ v = Val.ofJson j) := by
+  rw [structF_union] at h
+  exact structUnion_ok_cases _ args disc j v h
+
+/-- … hence a dict payload decoded by a union of dataclasses only (no discriminator) is an instance of a LISTED class,
+    obtained from that class's own structure hook. -/
+theorem union_of_classes_yields_listed_class (c : Codecs) (n : Nat) (decls : Decls) (args : List Ty)
+    (kvs : List (Str × JsonV)) (v : Val) (hall : ∀ t ∈ args, isDcTy t = true)
+    (h : structF c (n + 1) decls (.union args none) (.obj kvs) = .ok v) :
+    ∃ name fs, Ty.dc name ∈ args ∧ v = .inst name fs ∧ structF c n decls (.dc name) (.obj kvs) = .ok v := by
+  rcases union_result_is_one_members c n decls args none _ v h with h1 | ⟨t, ht, hr⟩ | ⟨d, _, _, _, _, hd, _⟩ | ⟨hany, _, _⟩
+  · cases h1.1
+  · have := hall t ht
+    cases t <;> simp [isDcTy] at this
+    rename_i name
+    obtain ⟨fs, rfl⟩ := structF_dc_ok_inst c n decls name _ v hr
+    exact ⟨name, fs, ht, rfl, hr⟩
+  · cases hd
+  · obtain ⟨t, ht, hta⟩ := List.any_eq_true.mp hany
+    have := hall t ht
+    cases t <;> simp [isDcTy, isDictAny] at this hta
+
+/-- Non-vacuity: `{"a": 1, "b": 2}` against `Union[V1, V2, V3]` succeeds (as a `V1`, case (b)). -/
+example : structF Codecs.exec 4 decls (.union members none) (.obj [("a".toList, .int 1), ("b".toList, .int 2)])
+    = .ok (.inst "V1".toList [("a".toList, .int 1)]) := by decide
 
 /-! ## without a discriminator: sequential first match
 
